@@ -82,8 +82,27 @@ def record(lentil, tier, seed):
                 sv = [Fr(rng.randint(0, 8), 8) for _ in sw]
                 sj = sp.spec_json(sunit, None, [x * g for x in sw], sv)
                 qs = sp.real_spectrum(lentil, sj)
+                if sunit in ('nm', 'angstrom') and rng.random() < 0.4:
+                    # the same efficiency curve held in narrow storage types (every number is exactly representable there: whole
+                    # nanometres / angstroms, eighths): float32 or float16 values, float32 or int32 wavelengths
+                    wdt, vdt = rng.choice(((np.float32, float), (float, np.float32), (np.int32, np.float16), (np.float32, np.float32)))
+                    wn, vn = np.asarray(qs.wave).astype(wdt), np.asarray(qs.value).astype(vdt)
+                    if np.array_equal(wn.astype(float), qs.wave) and np.array_equal(vn.astype(float), qs.value):
+                        qs = lentil.radiometry.Spectrum(wn, vn, waveunit=sunit, valueunit=None)
                 out = d.collect_charge(ph, [float(w) for w in waves_u], qs, waveunit=unit)
                 add(dict(base, qe=sj, out=rmat(out)))
+                if nw == 1 and rng.random() < 0.5:
+                    # an efficiency known at ONE wavelength (the cube's): scalar, one-element vector and one-sample spectrum agree
+                    q1 = Fr(rng.randint(1, 8), 8)
+                    s1j = sp.spec_json('nm', None, [Fr(wave_nm[0])], [q1])
+                    for wdt, vdt in ((float, float), (np.int32, float), (float, np.float32), (np.float32, np.float16)):
+                        s1 = lentil.radiometry.Spectrum(np.array([wave_nm[0]]).astype(wdt), np.array([float(q1)]).astype(vdt), waveunit='nm', valueunit=None)
+                        with warnings.catch_warnings():
+                            warnings.simplefilter('ignore')
+                            o1 = d.collect_charge(ph, [float(wave_nm[0])], s1, waveunit='nm')
+                        if not np.all(np.isfinite(o1)):
+                            o1 = np.full(np.shape(o1), -1.0)
+                        add(dict(base, wave=[sp.rj(Fr(wave_nm[0]))], wexp=-9, qe=s1j, out=rmat(o1)))
                 # the SAME efficiency object serves a second cube whose wavelengths are written in another unit
                 unit2 = rng.choice([u for u in ('nm', 'um', 'angstrom') if u != unit])
                 f2 = Fr(10) ** (-9 - sp.EXP[unit2])
